@@ -12,15 +12,27 @@ PROP = dict(
                  env=dict(thorough=dict(VERIF_C05_EXH=2))),
             dict(name="amm-exhaustive3", go_test="TestC05Exhaustive", runner="C05", tiers=("thorough",),
                  env=dict(thorough=dict(VERIF_C05_EXH=3, VERIF_C05_STRIDE=397))),
+            dict(name="amm-exhaustive-single", go_test="TestC05Exhaustive", runner="C05", tiers=("thorough",),
+                 env=dict(thorough=dict(VERIF_C05_EXH=2, VERIF_C05_EXH_KIND="single", VERIF_C05_EXH_AMAX=4))),
+            dict(name="amm-exhaustive-low", go_test="TestC05Exhaustive", runner="C05", tiers=("thorough",),
+                 env=dict(thorough=dict(VERIF_C05_EXH=2, VERIF_C05_EXH_KIND="single", VERIF_C05_EXH_TICKS="low", VERIF_C05_EXH_AMAX=5, VERIF_C05_EXH_NT=3))),
         ],
         rule="case = one call of the real amm package on a fresh order book: 0-12 user orders (types.UserOrder: batch ids 0-3, order ids with collisions, "
              "offer coin exact / +1 / x2 / -1 / half) on ticks around a base price (tick precision 1-4, base prices 10^-6 .. 10^6, 35% in the region "
              "where quote amounts round to zero), amounts 1 .. 10^30, optionally the pool orders amm.PoolOrders generates for 1-2 basic/ranged pools; "
              "entry points as in keeper/swap.go:672: OrderBook.Match(lastPrice) (55%), FindMatchPrice(book view + pool views)+pool orders at the match price+"
              "MatchAtSinglePrice (15%), MatchAtSinglePrice at a tick (10%), SortOrders+DistributeOrderAmountToOrders on one tick's orders (20%); "
-             "6 fixed regression cases first (the C05-F1 witness at three levels). non-trivial = the call produced at least one fill; distinct by digest "
+             "14% of the cases are DIRECTED at the drop loop of FindMatchableAmountAtSinglePrice: a price p < 1 whose inverse is NOT an integer (20 prices from 0.00033 to 0.999), one side "
+             "ending in a MARGINAL tick (the last eligible tick, filled only in part) whose residue - what is left for it once the other ticks of its side are used up - is floor(1/p), "
+             "ceil(1/p), one less / one more, 0, 1, or a multiple (a marginal sell tick whose residue is worth zero quote coin must be dropped, one worth a quote coin must be matched; "
+             "the purely random books hit residue = floor(1/p) with probability ~1/amount and prices with an integer inverse cannot tell floor from ceil), marginal tick on the sell side "
+             "(60%), the buy side, or both, through MatchAtSinglePrice at p, Match with p as last price and FindMatchPrice+MatchAtSinglePrice; "
+             "6 fixed regression cases first (the C05-F1 witness at three levels), then 12 marginal-tick books (inner sell tick 100, marginal sell tick, residue floor / ceil of 1/p at "
+             "0.102, 0.3, 0.9, single-price and Match). non-trivial = the call produced at least one fill; distinct by digest "
              "of (entry point, orders, price). thorough adds every book with <=2 orders per side (and every 397th with <=3), amounts 1..6, four "
-             "neighbouring ticks 0.48-0.51, against each tick as last price. keeper-orders: case = the C07 order history through the REAL msg server / EndBlocker (pools on 15% of the pairs), 85% of the "
+             "neighbouring ticks 0.48-0.51, against each tick as last price; every such book with amounts 1..4 through MatchAtSinglePrice at each of the four ticks (amm-exhaustive-single: inverses 1.96-2.08, "
+             "the amounts straddle floor / ceil of 1/p), and every book with <=2 orders per side, amounts 1..5, over the ticks 0.30-0.32 (inverses strictly between 3 and 4) through "
+             "MatchAtSinglePrice at each tick (amm-exhaustive-low). keeper-orders: case = the C07 order history through the REAL msg server / EndBlocker (pools on 15% of the pairs), 85% of the "
              "cases with the order-life scenario (a long-lived order partially matched in its first batch, the last price moved past it, then matched again tick by tick by ladders of small counter orders "
              "in later batches); before every EndBlocker the book of every pair is observed through the real types.NewUserOrder and keeper.Match (pool orders included) and replayed on AMM.run_match / "
              "run_single_price: every order's (open, paid, received), matched flag, match price, quoteCoinDiff are diffed, the holds_C05_* predicates judge the implementation's book, and holds_C05_life judges "
